@@ -217,7 +217,9 @@ fn main() {
         }
     }
     for cfg in cfgs {
-        let o = vp_net::explore_variant(cfg, &run, false);
+        // depth-first search for the large configurations: same state set, far less memory
+        let dfs = run.tier == Tier::Thorough && (cfg.prefix_chunks > 1000 || cfg.vsends[0] + cfg.vsends[1] >= 3);
+        let o = vp_net::explore_variant(cfg, &run, dfs);
         run.class(&format!("cfg:{}", o.label), || json!({"states": o.states}));
         let stop = o.violated;
         outcomes.push(o);
